@@ -34,13 +34,35 @@ Proof.
   destruct (op s k v); cbn [bind]; try reflexivity. apply IH. assumption.
 Qed.
 
+(* the static conflict check decides acceptance before any document is looked at *)
+Lemma apply_with_conflict m d q u up fs now p :
+  conflicting_path u = Some p -> apply_with m d q u up fs now = Err.
+Proof. intro H. unfold apply_with. destruct u; [reflexivity|]. rewrite H. reflexivity. Qed.
+
+Lemma apply_with_accept m d q u up fs now :
+  u <> [] -> conflicting_path u = None ->
+  apply_with m d q u up fs now =
+  let* s := apply_ops m up now fs u (d, []) in Ok (fst s, sort_changes (snd s)).
+Proof.
+  intros Hu H. unfold apply_with. destruct u; [congruence|]. rewrite H.
+  destruct (apply_ops m up now fs (p :: u) (d, [])) as [[d' ch]| | | |]; reflexivity.
+Qed.
+
+Lemma apply_with_ok_no_conflict m d q u up fs now r :
+  apply_with m d q u up fs now = Ok r -> conflicting_path u = None.
+Proof.
+  intro H. destruct (conflicting_path u) eqn:E; [|reflexivity].
+  rewrite (apply_with_conflict _ _ _ _ _ _ _ _ E) in H. discriminate.
+Qed.
+
 (* an update made of one operator *)
 Lemma apply_one_operator m d q k g op pairs up fs now :
   starts_dollar k = true -> assoc k (update_ops m up now) = Some (g, op) ->
+  conflicting_path [(k, VDoc pairs)] = None ->
   apply_with m d q [(k, VDoc pairs)] up fs now =
   let* s := apply_pairs m fs op pairs (d, []) in Ok (fst s, sort_changes (snd s)).
 Proof.
-  intros Hk Ha. unfold apply_with. cbn [apply_ops]. rewrite Hk, Ha.
+  intros Hk Ha NC. rewrite apply_with_accept by (try discriminate; exact NC). cbn [apply_ops]. rewrite Hk, Ha.
   destruct (apply_pairs m fs op pairs (d, [])) as [[d' ch]| | | |]; reflexivity.
 Qed.
 
@@ -71,6 +93,7 @@ Qed.
 
 (* success of the whole = success of every operator, in order *)
 Theorem apply_all_or_error m d q u1 kv u2 up fs now :
+  conflicting_path (u1 ++ kv :: u2) = None ->
   forall r, apply_with m d q (u1 ++ kv :: u2) up fs now = r ->
   match apply_ops m up now fs u1 (d, []) with
   | Ok s1 =>
@@ -85,8 +108,7 @@ Theorem apply_all_or_error m d q u1 kv u2 up fs now :
   | Err => r = Err | Panic => r = Panic | OutOfFuel => r = OutOfFuel | Unmodelled => r = Unmodelled
   end.
 Proof.
-  intros r <-. unfold apply_with.
-  destruct (u1 ++ kv :: u2) eqn:E; [destruct u1; discriminate|]. rewrite <- E. clear E.
+  intros NC r <-. rewrite apply_with_accept by (try exact NC; destruct u1; discriminate).
   rewrite apply_ops_app. destruct (apply_ops m up now fs u1 (d, [])) as [s1| | | |]; cbn [bind]; try reflexivity.
   change (kv :: u2) with ([kv] ++ u2). rewrite apply_ops_app.
   destruct (apply_ops m up now fs [kv] s1) as [s2| | | |]; cbn [bind]; try reflexivity.
@@ -99,7 +121,8 @@ Corollary apply_rejects_as_a_whole m d q u1 kv u2 up fs now s1 :
   apply_ops m up now fs [kv] s1 = Err ->
   apply_with m d q (u1 ++ kv :: u2) up fs now = Err.
 Proof.
-  intros H1 H2. pose proof (apply_all_or_error m d q u1 kv u2 up fs now _ eq_refl) as H.
+  intros H1 H2. destruct (conflicting_path (u1 ++ kv :: u2)) eqn:NC; [eapply apply_with_conflict; exact NC|].
+  pose proof (apply_all_or_error m d q u1 kv u2 up fs now NC _ eq_refl) as H.
   rewrite H1, H2 in H. exact H.
 Qed.
 
@@ -518,10 +541,11 @@ Qed.
 
 Lemma apply_with_one m d q k op pairs up fs now :
   starts_dollar k = true -> (exists g, assoc k (update_ops m up now) = Some (g, op)) -> plain_pairs pairs ->
+  conflicting_path [(k, VDoc pairs)] = None ->
   apply_with m d q [(k, VDoc pairs)] up fs now =
   let* s := run op pairs (d, []) in Ok (fst s, sort_changes (snd s)).
 Proof.
-  intros Hk [g Ha] Hp. rewrite (apply_one_operator _ _ _ _ _ _ _ _ _ _ Hk Ha).
+  intros Hk [g Ha] Hp NC. rewrite (apply_one_operator _ _ _ _ _ _ _ _ _ _ Hk Ha NC).
   rewrite apply_pairs_plain by assumption. reflexivity.
 Qed.
 
@@ -530,7 +554,8 @@ Lemma apply_with_one_ok m d q k op pairs up fs now d1 ch1 :
   apply_with m d q [(k, VDoc pairs)] up fs now = Ok (d1, ch1) ->
   exists ch, run op pairs (d, []) = Ok (d1, ch).
 Proof.
-  intros Hk Ha Hp H. rewrite (apply_with_one _ _ _ _ _ _ _ _ _ Hk Ha Hp) in H.
+  intros Hk Ha Hp H. pose proof (apply_with_ok_no_conflict _ _ _ _ _ _ _ _ H) as NC.
+  rewrite (apply_with_one _ _ _ _ _ _ _ _ _ Hk Ha Hp NC) in H.
   destruct (run op pairs (d, [])) as [[d' ch]| | | |]; cbn [bind fst snd] in H; try discriminate.
   injection H as <- _. eauto.
 Qed.
@@ -548,7 +573,7 @@ Proof.
   rewrite (run_ext _ _ _ E) in R.
   destruct (decided_idempotent_single decide Id _ _ _ _ _ C R) as [ch2 R2].
   rewrite <- (run_ext _ _ _ E) in R2.
-  rewrite (apply_with_one _ _ _ _ _ _ _ _ _ Hk Ha PP), R2. cbn [bind fst snd]. eauto.
+  rewrite (apply_with_one _ _ _ _ _ _ _ _ _ Hk Ha PP (apply_with_ok_no_conflict _ _ _ _ _ _ _ _ H)), R2. cbn [bind fst snd]. eauto.
 Qed.
 
 (* ... on any number of pairwise disjoint plain field paths *)
@@ -563,7 +588,7 @@ Proof.
   rewrite (run_ext _ _ _ E) in R.
   destruct (decided_idempotent_list decide Id _ _ _ _ F PD R) as [ch2 R2].
   rewrite <- (run_ext _ _ _ E) in R2.
-  rewrite (apply_with_one _ _ _ _ _ _ _ _ _ Hk Ha PP), R2. cbn [bind fst snd]. eauto.
+  rewrite (apply_with_one _ _ _ _ _ _ _ _ _ Hk Ha PP (apply_with_ok_no_conflict _ _ _ _ _ _ _ _ H)), R2. cbn [bind fst snd]. eauto.
 Qed.
 
 (* $unset on one plain path (documents with unique keys) *)
@@ -578,7 +603,7 @@ Proof.
   assert (Hk : starts_dollar "$unset"%string = true) by reflexivity.
   destruct (apply_with_one_ok _ _ _ _ _ _ _ _ _ _ _ Hk Ha PP H) as [ch R].
   destruct (unset_idempotent_single _ _ _ _ _ U R) as [ch2 R2].
-  rewrite (apply_with_one _ _ _ _ _ _ _ _ _ Hk Ha PP), R2. cbn [bind fst snd]. eauto.
+  rewrite (apply_with_one _ _ _ _ _ _ _ _ _ Hk Ha PP (apply_with_ok_no_conflict _ _ _ _ _ _ _ _ H)), R2. cbn [bind fst snd]. eauto.
 Qed.
 
 (* ------------------------------------------------------------------ *)
@@ -605,37 +630,112 @@ Theorem noop_reports_unchanged m d q u up fs now d' ch :
 Proof. intros _ ->. unfold counted_modified. rewrite value_eqb_refl. reflexivity. Qed.
 
 (* ------------------------------------------------------------------ *)
-(* the full idempotence statement — without the hypotheses "plain paths" and
-   "pairwise disjoint" — is FALSE of the faithful model (and of lungo): *)
+(* the static conflict check: acceptance of an update does not depend on the
+   document as far as path conflicts go *)
 
-Definition idempotent_for (m : doc -> doc -> res bool) (u : doc) : Prop :=
-  forall d q up fs now d1 ch1,
-    apply_with m d q u up fs now = Ok (d1, ch1) ->
-    exists ch2, apply_with m d1 q u up fs now = Ok (d1, ch2).
+(* a conflicting update is rejected for EVERY document (and query, upsert
+   flag, array filters, clock) *)
+Theorem conflicting_update_rejected m u p :
+  conflicting_path u = Some p ->
+  forall d q up fs now, apply_with m d q u up fs now = Err.
+Proof. intros H d q up fs now. eapply apply_with_conflict. exact H. Qed.
 
+(* every named path pair of an accepted update is free of static conflicts *)
+Fixpoint pairwise_free (names : list string) : Prop :=
+  match names with
+  | [] => True
+  | n :: t => Forall (fun m => static_conflict (split_path n) (split_path m) = false) t /\ pairwise_free t
+  end.
+
+Lemma first_conflict_none names : first_conflict names = None -> pairwise_free names.
+Proof.
+  induction names as [|n t IH]; intro H; [exact I|]. cbn [first_conflict] in H.
+  destruct (find (fun m => static_conflict (split_path n) (split_path m)) t) eqn:F; [discriminate|].
+  split; [|apply IH; exact H]. apply Forall_forall. intros x Hx.
+  destruct (static_conflict (split_path n) (split_path x)) eqn:E; [|reflexivity].
+  pose proof (find_none _ _ F x Hx) as N. cbn in N. congruence.
+Qed.
+
+Theorem accepted_paths_conflict_free m d q u up fs now r :
+  apply_with m d q u up fs now = Ok r -> pairwise_free (named_paths u).
+Proof. intro H. apply first_conflict_none. exact (apply_with_ok_no_conflict _ _ _ _ _ _ _ _ H). Qed.
+
+(* the two former counter-examples to idempotence (repaired by the static
+   check): a.$[] next to a.1, and 1.0 next to 1 whose first invocation is a
+   no-op — both are rejected now, whatever the document *)
 Open Scope string_scope.
 
-(* (A) a.$[] together with a fixed element of the same array: the resolved
-   paths a.0 / a.1 do not conflict, the array grows, and the second
-   application sees one more element *)
 Definition u_positional_and_index : doc :=
   [("$max", VDoc [("a.$[]", VInt32 5); ("a.1", VInt32 2)])].
 
-(* (B) conflicting paths 1.0 / 1 are accepted because the first invocation is
-   a no-op and is never recorded *)
 Definition u_conflict_after_noop : doc :=
   [("$max", VDoc [("1.0", VInt32 5); ("1", VArr [])])].
 
-Theorem idempotence_refuted m :
-  ~ idempotent_for m u_positional_and_index /\ ~ idempotent_for m u_conflict_after_noop.
+(* and the witness against the first draft of the check (a positional operator
+   and a fixed segment followed by different fields) *)
+Definition u_positional_and_index_below : doc :=
+  [("$set", VDoc [("a.$[].x", VInt32 1); ("a.1.y", VInt32 2)])].
+
+Theorem former_idempotence_witnesses_rejected m :
+  conflicting_path u_positional_and_index = Some "a.1" /\
+  conflicting_path u_conflict_after_noop = Some "1" /\
+  conflicting_path u_positional_and_index_below = Some "a.1.y" /\
+  forall d q up fs now,
+    apply_with m d q u_positional_and_index up fs now = Err /\
+    apply_with m d q u_conflict_after_noop up fs now = Err /\
+    apply_with m d q u_positional_and_index_below up fs now = Err.
 Proof.
-  split; intro H.
-  - specialize (H [("a", VArr [VInt32 1])] [] false [] 0 [("a", VArr [VInt32 5; VInt32 2])]
-                  [("a.0", VInt32 5); ("a.1", VInt32 2)] eq_refl).
-    destruct H as [ch2 H]. vm_compute in H. discriminate.
-  - specialize (H [("1", VDoc [("0", VString "")])] [] false [] 0 [("1", VArr [])]
-                  [("1", VArr [])] eq_refl).
-    destruct H as [ch2 H]. vm_compute in H. discriminate.
+  assert (A : conflicting_path u_positional_and_index = Some "a.1") by reflexivity.
+  assert (B : conflicting_path u_conflict_after_noop = Some "1") by reflexivity.
+  assert (C : conflicting_path u_positional_and_index_below = Some "a.1.y") by reflexivity.
+  repeat split; auto; eapply apply_with_conflict; eassumption.
+Qed.
+
+(* conflict-free plain field paths are disjoint *)
+Lemma static_conflict_free_disjoint p : forall q,
+  static_conflict p q = false -> field_path p -> disjoint p q.
+Proof.
+  induction p as [|a p' IH]; intros q H F; [discriminate|].
+  destruct q as [|b q']; [discriminate|]. inversion F as [|? ? Fa Fp]; subst.
+  cbn [static_conflict disjoint] in *. destruct (String.eqb_spec a b) as [->|N].
+  - left. split; [reflexivity | apply IH; assumption].
+  - right. split; [exact N|]. intros i Hi. rewrite Fa in Hi. discriminate.
+Qed.
+
+Lemma named_paths_single k pairs :
+  starts_dollar k = true -> k <> "$rename"%string -> named_paths [(k, VDoc pairs)] = map fst pairs.
+Proof.
+  intros Hk Nr. unfold named_paths. cbn [flat_map fst snd]. rewrite Hk, app_nil_r.
+  assert (E : String.eqb k "$rename" = false) by (apply String.eqb_neq; exact Nr). rewrite E.
+  induction pairs as [|[p v] t IH]; [reflexivity|]. cbn [flat_map map fst snd].
+  destruct v; cbn [app]; rewrite IH; reflexivity.
+Qed.
+
+Lemma pairwise_free_disjoint names :
+  pairwise_free names -> Forall (fun n => field_path (split_path n)) names -> pairwise_disjoint names.
+Proof.
+  induction names as [|n t IH]; intros H F; [exact I|]. destruct H as [H1 H2]. inversion F as [|? ? Fn Ft]; subst.
+  cbn [pairwise_disjoint]. split; [|apply IH; assumption].
+  rewrite Forall_forall in *. intros x Hx. apply static_conflict_free_disjoint; [apply H1; exact Hx | exact Fn].
+Qed.
+
+Lemma idem_operator_not_rename m k op : idem_operator m k op -> k <> "$rename"%string.
+Proof. intro H. destruct H; discriminate. Qed.
+
+(* idempotence on any number of plain field paths: that the paths are pairwise
+   disjoint is no longer a hypothesis but a consequence of acceptance *)
+Theorem apply_idempotent_accepted m d q k op pairs up fs now d1 ch1 :
+  idem_operator m k op -> plain_pairs pairs -> field_pairs pairs ->
+  apply_with m d q [(k, VDoc pairs)] up fs now = Ok (d1, ch1) ->
+  exists ch2, apply_with m d1 q [(k, VDoc pairs)] up fs now = Ok (d1, ch2).
+Proof.
+  intros I PP F H. eapply apply_idempotent_list; eauto.
+  destruct (idem_operator_registered m up now _ _ I) as [Hk _].
+  pose proof (accepted_paths_conflict_free _ _ _ _ _ _ _ _ H) as PF.
+  rewrite (named_paths_single _ _ Hk (idem_operator_not_rename _ _ _ I)) in PF.
+  apply pairwise_free_disjoint; [exact PF|].
+  unfold field_pairs in F. rewrite Forall_forall in *. intros n Hn. apply in_map_iff in Hn.
+  destruct Hn as ([p v] & <- & Hin). exact (F _ Hin).
 Qed.
 
 (* (C, repaired by /repo 4eddedf) a positional operator is only recognised at
@@ -744,3 +844,184 @@ Lemma arith_rejection_rejects_update f s ps v :
   f (if is_missing (Get (fst s) ps) then VInt32 0 else Get (fst s) ps) v = Ok VMissing ->
   apply_arith f s ps v = Err.
 Proof. intro H. unfold apply_arith. rewrite H. reflexivity. Qed.
+
+(* ------------------------------------------------------------------ *)
+(* idempotence of updates that combine SEVERAL operators of the class
+   $set / $min / $max / $addToSet / $pull / $pullAll *)
+
+(* one operator invocation: decision function, path, argument *)
+Definition inv : Type := (value -> value -> res decision) * string * value.
+Definition inv_path (i : inv) : string := snd (fst i).
+
+Fixpoint run_inv (l : list inv) (s : st) : res st :=
+  match l with
+  | [] => Ok s
+  | (dc, p, v) :: t => let* s' := decided_op dc s p v in run_inv t s'
+  end.
+
+Definition idem_decide (dc : value -> value -> res decision) : Prop :=
+  forall cur v w, dc cur v = Ok (Write w) -> is_missing w = false -> dc w v = Ok Keep \/ dc w v = Ok (Write w).
+
+Definition settled_inv (D : doc) (i : inv) : Prop := settled (fst (fst i)) D (inv_path i, snd i).
+
+Lemma run_inv_app a : forall b s, run_inv (a ++ b) s = let* s1 := run_inv a s in run_inv b s1.
+Proof.
+  induction a as [|[[dc p] v] t IH]; intros b s; [reflexivity|]. cbn [app run_inv].
+  destruct (decided_op dc s p v); cbn [bind]; try reflexivity. apply IH.
+Qed.
+
+Lemma run_inv_frame l : forall d ch dn chn q,
+  run_inv l (d, ch) = Ok (dn, chn) ->
+  Forall (fun i => field_path (split_path (inv_path i))) l ->
+  Forall (fun i => disjoint (split_path (inv_path i)) q) l ->
+  get_path dn q = get_path d q.
+Proof.
+  induction l as [|[[dc p] v] t IH]; intros d ch dn chn q H F D.
+  - cbn in H. injection H as <- <-. reflexivity.
+  - cbn [run_inv] in H. inversion F; subst. inversion D; subst. unfold inv_path in *. cbn [fst snd] in *.
+    destruct (decided_op dc (d, ch) p v) as [[d1 ch1]| | | |] eqn:E; cbn [bind] in H; try discriminate.
+    rewrite (IH _ _ _ _ _ H) by assumption.
+    unfold decided_op in E. cbn [fst] in E.
+    destruct (dc (Get d p) v) as [[|w]| | | |]; cbn [bind] in E; try discriminate.
+    + injection E as <- <-. reflexivity.
+    + destruct (put_record_ok _ _ _ _ _ _ E) as (old & P & _). eapply get_put_frame_field; eauto.
+Qed.
+
+Lemma first_run_settles_inv l : forall d ch dn chn,
+  run_inv l (d, ch) = Ok (dn, chn) ->
+  Forall (fun i => idem_decide (fst (fst i))) l ->
+  Forall (fun i => field_path (split_path (inv_path i))) l ->
+  pairwise_disjoint (map inv_path l) ->
+  Forall (settled_inv dn) l.
+Proof.
+  induction l as [|[[dc p] v] t IH]; intros d ch dn chn H I F PD; [constructor|].
+  cbn [run_inv] in H. inversion I as [|? ? Idc It]; subst. inversion F as [|? ? Fp Ft]; subst.
+  cbn [map pairwise_disjoint] in PD. destruct PD as [Dp PDt]. unfold inv_path in *. cbn [fst snd] in *.
+  destruct (decided_op dc (d, ch) p v) as [[d1 ch1]| | | |] eqn:E; cbn [bind] in H; try discriminate.
+  constructor; [|eapply IH; eauto].
+  pose proof (op_settles dc Idc _ _ _ _ _ _ (field_path_canon _ Fp) E) as S.
+  assert (G : Get dn p = Get d1 p).
+  { eapply run_inv_frame; eauto. rewrite Forall_forall in *. intros i Hin.
+    apply disjoint_sym. apply Dp. apply in_map_iff. exists i. split; [reflexivity | exact Hin]. }
+  unfold settled_inv, settled, inv_path in *. cbn [fst snd] in *. rewrite G. exact S.
+Qed.
+
+Lemma settled_run_inv l : forall D ch,
+  Forall (settled_inv D) l -> pairwise_disjoint (map inv_path l) ->
+  (forall kv, In kv ch -> Forall (fun p => disjoint (split_path (fst kv)) (split_path p)) (map inv_path l)) ->
+  exists ch', run_inv l (D, ch) = Ok (D, ch').
+Proof.
+  induction l as [|[[dc p] v] t IH]; intros D ch S PD Hch; [eexists; reflexivity|].
+  inversion S as [|? ? Sp St]; subst. cbn [map pairwise_disjoint] in PD. destruct PD as [Dp PDt].
+  unfold settled_inv, inv_path in Sp. cbn [fst snd] in *. cbn [run_inv].
+  assert (Hp : forall kv, In kv ch -> disjoint (split_path (fst kv)) (split_path p)).
+  { intros kv Hin. specialize (Hch kv Hin). inversion Hch; assumption. }
+  destruct (settled_step dc D ch p v Sp Hp) as [R|[w R]]; rewrite R; cbn [bind].
+  - apply IH; auto. intros kv Hin. specialize (Hch kv Hin). inversion Hch; assumption.
+  - apply IH; auto. intros kv Hin. apply in_app_or in Hin. destruct Hin as [Hin|[<-|[]]].
+    + specialize (Hch kv Hin). inversion Hch; assumption.
+    + exact Dp.
+Qed.
+
+Theorem run_inv_idempotent l d dn chn :
+  Forall (fun i => idem_decide (fst (fst i))) l ->
+  Forall (fun i => field_path (split_path (inv_path i))) l ->
+  pairwise_disjoint (map inv_path l) ->
+  run_inv l (d, []) = Ok (dn, chn) ->
+  exists ch2, run_inv l (dn, []) = Ok (dn, ch2).
+Proof.
+  intros I F PD H. apply settled_run_inv; [eapply first_run_settles_inv; eauto | exact PD | intros ? []].
+Qed.
+
+(* the decision function of each operator of the class *)
+Definition decide_of (m : doc -> doc -> res bool) (k : string) : value -> value -> res decision :=
+  if String.eqb k "$set" then decide_set
+  else if String.eqb k "$max" then decide_minmax is_lt
+  else if String.eqb k "$min" then decide_minmax is_gt
+  else if String.eqb k "$addToSet" then decide_add_to_set
+  else if String.eqb k "$pull" then decide_pull m
+  else decide_pull_all.
+
+Lemma decide_of_spec m k op :
+  idem_operator m k op ->
+  (forall s ps v, op s ps v = decided_op (decide_of m k) s ps v) /\ idem_decide (decide_of m k).
+Proof.
+  intro H. destruct H; unfold decide_of; cbn [String.eqb Ascii.eqb Bool.eqb]; split.
+  - exact apply_set_decided. - exact decide_set_idem.
+  - exact (apply_minmax_decided is_lt). - exact (decide_minmax_idem is_lt eq_refl).
+  - exact (apply_minmax_decided is_gt). - exact (decide_minmax_idem is_gt eq_refl).
+  - exact apply_add_to_set_decided. - exact decide_add_to_set_idem.
+  - exact (apply_pull_decided m). - exact (decide_pull_idem m).
+  - exact apply_pull_all_decided. - exact decide_pull_all_idem.
+Qed.
+
+(* an update all of whose operators belong to the class, on plain paths *)
+Inductive idem_update (m : doc -> doc -> res bool) : doc -> Prop :=
+| iu_nil : idem_update m []
+| iu_cons k op pairs t :
+    idem_operator m k op -> plain_pairs pairs -> idem_update m t -> idem_update m ((k, VDoc pairs) :: t).
+
+Fixpoint flatten (m : doc -> doc -> res bool) (u : doc) : list inv :=
+  match u with
+  | [] => []
+  | (k, VDoc pairs) :: t => map (fun pv => (decide_of m k, fst pv, snd pv)) pairs ++ flatten m t
+  | _ :: t => flatten m t
+  end.
+
+Lemma run_as_inv dc pairs : forall s, run (decided_op dc) pairs s = run_inv (map (fun pv => (dc, fst pv, snd pv)) pairs) s.
+Proof.
+  induction pairs as [|[p v] t IH]; intro s; [reflexivity|]. cbn [run map run_inv fst snd].
+  destruct (decided_op dc s p v); cbn [bind]; try reflexivity. apply IH.
+Qed.
+
+Lemma apply_ops_flatten m up now fs u : idem_update m u ->
+  forall s, apply_ops m up now fs u s = run_inv (flatten m u) s.
+Proof.
+  induction 1 as [|k op pairs t I PP _ IH]; intro s; [reflexivity|].
+  destruct (idem_operator_registered m up now _ _ I) as [Hk [g Ha]].
+  destruct (decide_of_spec _ _ _ I) as [E _].
+  cbn [apply_ops flatten]. rewrite Hk, Ha, apply_pairs_plain by exact PP.
+  rewrite (run_ext _ _ _ E), run_as_inv, run_inv_app.
+  destruct (run_inv (map (fun pv => (decide_of m k, fst pv, snd pv)) pairs) s); cbn [bind]; try reflexivity. apply IH.
+Qed.
+
+Lemma flatten_paths m u : idem_update m u -> map inv_path (flatten m u) = named_paths u.
+Proof.
+  induction 1 as [|k op pairs t I PP _ IH]; [reflexivity|].
+  destruct (idem_operator_registered m Datatypes.false 0 _ _ I) as [Hk _].
+  cbn [flatten]. rewrite map_app.
+  change ((k, VDoc pairs) :: t) with ([(k, VDoc pairs)] ++ t)%list. unfold named_paths at 1. rewrite flat_map_app.
+  fold (named_paths [(k, VDoc pairs)]). fold (named_paths t).
+  rewrite (named_paths_single _ _ Hk (idem_operator_not_rename _ _ _ I)).
+  f_equal; [|exact IH]. rewrite map_map. reflexivity.
+Qed.
+
+Lemma flatten_idem m u : idem_update m u -> Forall (fun i => idem_decide (fst (fst i))) (flatten m u).
+Proof.
+  induction 1 as [|k op pairs t I PP _ IH]; [constructor|]. cbn [flatten]. apply Forall_app. split; [|exact IH].
+  apply Forall_forall. intros i Hi. apply in_map_iff in Hi. destruct Hi as (pv & <- & _). cbn [fst].
+  exact (proj2 (decide_of_spec _ _ _ I)).
+Qed.
+
+(* ANY accepted update built from $set / $min / $max / $addToSet / $pull /
+   $pullAll (several operators, any number of paths each) on plain field paths
+   is idempotent *)
+Theorem apply_idempotent_update m d q u up fs now d1 ch1 :
+  idem_update m u ->
+  Forall (fun p => field_path (split_path p)) (named_paths u) ->
+  apply_with m d q u up fs now = Ok (d1, ch1) ->
+  exists ch2, apply_with m d1 q u up fs now = Ok (d1, ch2).
+Proof.
+  intros IU F H.
+  pose proof (apply_with_ok_no_conflict _ _ _ _ _ _ _ _ H) as NC.
+  assert (Hu : u <> []) by (intro E; subst u; discriminate).
+  rewrite apply_with_accept in H by assumption. rewrite apply_ops_flatten in H by exact IU.
+  destruct (run_inv (flatten m u) (d, [])) as [[d' ch]| | | |] eqn:R; cbn [bind fst snd] in H; try discriminate.
+  injection H as <- _.
+  assert (PD : pairwise_disjoint (map inv_path (flatten m u))).
+  { rewrite flatten_paths by exact IU. apply pairwise_free_disjoint; [apply first_conflict_none; exact NC | exact F]. }
+  assert (FF : Forall (fun i => field_path (split_path (inv_path i))) (flatten m u)).
+  { rewrite <- (flatten_paths m u IU) in F. rewrite Forall_map in F. exact F. }
+  destruct (run_inv_idempotent _ _ _ _ (flatten_idem _ _ IU) FF PD R) as [ch2 R2].
+  rewrite apply_with_accept by assumption. rewrite apply_ops_flatten by exact IU. rewrite R2. cbn [bind fst snd]. eauto.
+Qed.
